@@ -115,6 +115,19 @@ def run(chk):
                 if not others or mergefacts.lookups_in(ev[2]):
                     continue
                 nfill += 1
+                if "/" not in pth:
+                    # a whole element of the module (MOD_PAR, MOD_COMMON, A2ML, VARIANT_CODING, ..) taken over from B: it forgets its
+                    # position in B's file (reset_location on a value of that element type in the same merge step)
+                    fld = pth.split(".")[-1]
+                    madt = prog.adts.get("specification::Module")
+                    fty = next((f["ty"] for f in madt["variants"][0]["fields"] if f["name"] == fld), "") if madt else ""
+                    m_el = re.search(r"specification::(\w+)", fty)
+                    if m_el and not fty.startswith("std::vec::Vec") and "ItemList" not in fty:
+                        nreset += 1
+                        el = m_el.group(1)
+                        has = any(mir.strip_generics((t.get("res") or "").lstrip("?")).endswith("::reset_location") and ("specification::%s " % el in (t.get("res") or "") or "specification::%s>" % el in (t.get("res") or "") or "<specification::%s as" % el in (t.get("res") or "")) for bi, t in b.calls())
+                        if not has:
+                            chk.add(Finding("R08-reset", "R08-reset::%s::%s" % (mir.strip_generics(fid), pth), "%s takes %s over from the merged-in module without reset_location(): the element keeps the uid/line of its source file and is written at a foreign position" % (fid, pth), b.where(ev[4])))
                 subj_ok = False
                 for (sb, taken) in b.control_deps_closure(ev[5]):
                     for st in c09.switch_subject(b, Sf, sb):
